@@ -35,6 +35,7 @@ type mtrack struct {
 	enc   string
 	id    uint32
 	pre   string // multi/<scheme|clear>/<family>
+	shape []string
 }
 
 type multi struct {
@@ -115,9 +116,18 @@ func runMulti(c *runner.Ctx, k int) {
 			return
 		}
 		cs.Name = fmt.Sprintf("multi/track%d/%s", i, cs.Codec)
+		// shapes of the clear track that the library's writer never produces (as in the single-track cases)
+		var shape []string
+		var ok bool
+		if cs, shape, ok = reshapeClear(c, cs, 4, 3); !ok {
+			return
+		}
 		cfg := cencgen.GenConfig(r)
 		cfg.Key, cfg.KeyKind = base.Key, base.KeyKind // DecryptSegment takes one key for the whole file
-		m.tracks = append(m.tracks, &mtrack{cs: cs, cfg: cfg, clear: i == clearTrack})
+		if cfg.Pssh && r.Bool() {
+			cfg.PsshN = 2
+		}
+		m.tracks = append(m.tracks, &mtrack{cs: cs, cfg: cfg, clear: i == clearTrack, shape: shape})
 	}
 	tools := &cencgen.Tools{BinDir: c.Env.BinDir + "/tools", Scratch: c.Env.Scratch}
 	haveTools := tools.Available()
@@ -125,13 +135,38 @@ func runMulti(c *runner.Ctx, k int) {
 		c.Count("tool_binaries_missing", 1)
 	}
 
+	// ---- the merge plan (drawn before the encryption: with key rotation the key of a track fragment is the
+	// key of the fragment of the merged file it will be part of) ----
+	nfrags := make([]int, n)
+	for i, t := range m.tracks {
+		nfrags[i] = len(t.cs.Frags)
+	}
+	m.plan = cencgen.GenMergePlan(r, nfrags)
+	// key rotation (library on both sides only): fragment g of the MERGED file is decrypted with key number
+	// g/period through one DecryptInfo; every traf in it was encrypted with that key
+	rotate := 0
+	if len(m.plan.Slots) >= 2 && r.Chance(1, 3) {
+		rotate = r.PickInt(1, 1, 2, 3)
+	}
+	var decRot cencgen.RotStats
+
 	// ---- encrypt every track on its own ----
 	encFiles := make([][]byte, n)
 	clearFiles := make([][]byte, n)
-	nfrags := make([]int, n)
 	for i, t := range m.tracks {
-		encTool := !t.clear && haveTools && r.Chance(1, 6)
+		encTool := !t.clear && haveTools && r.Chance(1, 6) && rotate == 0
 		eopt := cencgen.LibOpt{SliceReader: r.Bool()}
+		if rotate > 0 {
+			eopt.RotateKeys, eopt.Rot = rotate, &cencgen.RotStats{}
+			eopt.KeyIdx = make([]int, nfrags[i])
+			for g, sl := range m.plan.Slots {
+				for _, st := range sl.Trafs {
+					if st.Track == i {
+						eopt.KeyIdx[st.Frag] = g / rotate
+					}
+				}
+			}
+		}
 		// the clear file as the encryption side writes it (segment-mode encode)
 		var err error
 		clearFiles[i], err = cencgen.Reencode(t.cs.File(), cencgen.LibOpt{SliceReader: eopt.SliceReader && !encTool})
@@ -139,7 +174,6 @@ func runMulti(c *runner.Ctx, k int) {
 			c.Inconclusive("baseline re-encode of the clear input failed: " + errClass(err))
 			return
 		}
-		nfrags[i] = len(t.cs.Frags)
 		if t.clear {
 			t.enc = "none"
 			encFiles[i] = clearFiles[i]
@@ -155,7 +189,6 @@ func runMulti(c *runner.Ctx, k int) {
 	}
 
 	// ---- merge ----
-	m.plan = cencgen.GenMergePlan(r, nfrags)
 	var schemes []string
 	for i, t := range m.tracks {
 		t.id = m.plan.TrackIDs[i]
@@ -197,9 +230,13 @@ func runMulti(c *runner.Ctx, k int) {
 		var tr []map[string]interface{}
 		for _, t := range m.tracks {
 			tr = append(tr, map[string]interface{}{"codec": t.cs.Codec, "traits": t.cs.Traits, "track_id": t.id, "scheme": t.scheme(), "iv": t.cfg.IVHex(), "kid": t.cfg.KIDHex(),
-				"pssh": t.cfg.Pssh, "encrypt_path": t.enc, "fragments": len(t.cs.Frags)})
+				"pssh": t.cfg.Pssh, "pssh_boxes_to_initprotect": t.cfg.NPssh(), "clear_input_rewrites": t.shape, "encrypt_path": t.enc, "fragments": len(t.cs.Frags)})
 		}
-		d := map[string]interface{}{"kind": "multi-track", "tracks": tr, "key": base.KeyHex(), "plan": m.plan.String(), "order": m.plan.OrderKey(), "decrypt_path": x.dec}
+		d := map[string]interface{}{"kind": "multi-track", "tracks": tr, "key": base.KeyHex(), "plan": m.plan.String(), "order": m.plan.OrderKey(), "decrypt_path": x.dec,
+			"merged_encrypted_moov_children": cencgen.MoovLayout(encInit)}
+		if rotate > 0 {
+			d["key_rotation"] = fmt.Sprintf("fragment g (0-based) of the merged file is decrypted with key number g/%d (every traf in it was encrypted with that key): key 0 = the case key, key k = SHA-256(case key || \"rot\" || uint32 k)[:16]; one DecryptInfo for the whole file", rotate)
+		}
 		if len(encFile) <= 20000 {
 			d["merged_encrypted_file_hex"] = hex.EncodeToString(encFile)
 			d["merged_clear_file_hex"] = hex.EncodeToString(append(append([]byte(nil), clrInit...), clrMedia...))
@@ -209,8 +246,11 @@ func runMulti(c *runner.Ctx, k int) {
 
 	// ---- decrypt the merged file ----
 	separate := r.Chance(1, 3)
-	decTool := haveTools && r.Chance(1, 5)
+	decTool := haveTools && r.Chance(1, 5) && rotate == 0
 	dopt := cencgen.LibOpt{SliceReader: r.Bool(), Separate: separate, BoxTree: r.Bool()}
+	if rotate > 0 {
+		dopt.RotateKeys, dopt.Rot = rotate, &decRot
+	}
 	var decInit, decMedia []byte
 	if decTool {
 		x.dec = "tool"
@@ -307,6 +347,8 @@ func runMulti(c *runner.Ctx, k int) {
 		c.Seen("multi_fragment", shape)
 	}
 	c.Seen("multi_protected_tracks", fmt.Sprintf("%d of %d", len(protTracks), n))
+	c.Seen("multi_encrypted_moov_pssh_layout", cencgen.PsshNeighbourhood(encInit))
+	countRotation(c, "multi_", rotate, nil, &decRot)
 
 	// ---- baseline: the merged clear file after the decryption side's encode ----
 	dmode := cencgen.LibOpt{SliceReader: dopt.SliceReader, BoxTree: dopt.BoxTree}
